@@ -152,11 +152,17 @@ def _run_range(arg):
         out['outcomes'][r.outcome] = out['outcomes'].get(r.outcome, 0) + 1
         out['tags'].update(r.tags)
         if r.viol is not None:
-            if len(out['viol']) < 50:
+            # violations that carry a signature (candidates for a known finding) must not crowd out the others: separate quotas
+            seen = out.setdefault('viol_seen', {})
+            seen[r.sig] = seen.get(r.sig, 0) + 1
+            if seen[r.sig] <= (50 if r.sig is None else 3):
                 out['viol'].append({'case': case, 'viol': r.viol, 'sig': r.sig, 'outcome': r.outcome})
-            else:
+            elif r.sig is None:
                 out.setdefault('viol_overflow', 0)
                 out['viol_overflow'] += 1
+            else:
+                so = out.setdefault('sig_overflow', {})
+                so[r.sig] = so.get(r.sig, 0) + 1
         if idx == start and len(out['samples']) < 1:
             out['samples'].append({'case': case, 'outcome': r.outcome})
     return out
@@ -179,7 +185,7 @@ def explore(sub, seed=0, workers=None):
     if seed % 2:
         ranges.reverse()
     merged = {'n': 0, 'steps': 0, 'nontrivial': set(), 'distinct': set(), 'outcomes': {},
-              'viol': [], 'tags': set(), 'errors': [], 'samples': [], 'viol_overflow': 0}
+              'viol': [], 'tags': set(), 'errors': [], 'samples': [], 'viol_overflow': 0, 'sig_overflow': {}}
     if sub.parallel and workers > 1 and n > 64:
         import concurrent.futures as cf
         ctx = multiprocessing.get_context('fork')
@@ -207,6 +213,8 @@ def _merge(m, p):
     if len(m['samples']) < 6:
         m['samples'].extend(p['samples'][:1])
     m['viol_overflow'] += p.get('viol_overflow', 0)
+    for k, v in p.get('sig_overflow', {}).items():
+        m['sig_overflow'][k] = m['sig_overflow'].get(k, 0) + v
 
 
 # ---------------------------------------------------------------------------
@@ -254,7 +262,7 @@ def run_check(prop, subs, tier, seed, level='model_checking', assumptions=(), ex
             'outcome_classes': dict(sorted(m['outcomes'].items(), key=lambda kv: -kv[1])[:12]),
             'n_outcome_classes': len(m['outcomes']), 'rule': sub.rule,
             'tags_seen': sorted(m['tags']), 'wall_s': round(time.time() - ts, 2),
-            'violations': len(m['viol']) + m['viol_overflow'],
+            'violations': len(m['viol']) + m['viol_overflow'] + sum(m['sig_overflow'].values()),
         }
         total['n'] += m['n']
         total['steps'] += m['steps']
@@ -285,6 +293,12 @@ def run_check(prop, subs, tier, seed, level='model_checking', assumptions=(), ex
                 known_hits[hit] += 1
                 continue
             violations.append((sub, v))
+        for sig, cnt in m['sig_overflow'].items():
+            hit = [(ksig, what) for ksig, what in known if ksig == sig]
+            if hit:
+                known_hits[hit[0]] = known_hits.get(hit[0], 0) + cnt
+            else:
+                m['viol_overflow'] += cnt       # further cases of a signature that is not a known finding (the first ones are listed above)
         if m['viol_overflow']:
             per_sub[sub.name]['violations_not_listed'] = m['viol_overflow']
 
